@@ -50,6 +50,17 @@ Lemma keywords_ok :
   no_cont kw_header_start && no_cont kw_header_end && (blen kw_header_start <? 4294967296) && (blen kw_header_end <? 4294967296) = true.
 Proof. vm_compute. reflexivity. Qed.
 
+Lemma table_keys_utf8 : forallb (fun e => valid_utf8 (fst e)) header_keys = true.
+Proof. vm_compute. reflexivity. Qed.
+
+Lemma keywords_utf8 : valid_utf8 kw_header_start = true /\ valid_utf8 kw_header_end = true.
+Proof. split; vm_compute; reflexivity. Qed.
+
+Lemma table_key_utf8 k t : lookup k header_keys = Some t -> valid_utf8 k = true.
+Proof.
+  intros H. apply lookup_In in H. pose proof table_keys_utf8 as T. rewrite forallb_forall in T. exact (T _ H).
+Qed.
+
 Lemma table_key k t : lookup k header_keys = Some t ->
   no_cont k = true /\ blen k < 4294967296 /\ k <> kw_header_end.
 Proof.
@@ -82,12 +93,12 @@ Proof.
   unfold blen in *. destruct (0 <=? Z.of_nat (length s)) eqn:?, (Z.of_nat (length s) <? 4294967296) eqn:?; cbn; try reflexivity; lia.
 Qed.
 
-Lemma read_string_fmt s r : blen s < 4294967296 -> read_string (fmt_string s ++ r) = Some (s, r).
+Lemma read_string_fmt s r : blen s < 4294967296 -> valid_utf8 s = true -> read_string (fmt_string s ++ r) = Some (s, r).
 Proof.
-  intros H. unfold read_string, fmt_string. rewrite <- app_assoc, read_u32_le32 by (unfold blen in *; lia).
+  intros H Hv. unfold read_string, fmt_string. rewrite <- app_assoc, read_u32_le32 by (unfold blen in *; lia).
   cbv zeta. replace (Z.to_nat (Z.min (blen s) (blen (s ++ r)))) with (length s) by (unfold blen; rewrite app_length; lia).
   rewrite firstn_app, skipn_app, Nat.sub_diag, firstn_all, skipn_all. cbn [firstn skipn].
-  rewrite app_nil_r. reflexivity.
+  rewrite !app_nil_r, Hv. reflexivity.
 Qed.
 
 Lemma length_fmt_string s : length (fmt_string s) = (4 + length s)%nat.
@@ -103,7 +114,7 @@ Proof.
     destruct (8 <=? Z.of_nat (length w + length r)) eqn:E; [|lia].
     replace 8%nat with (length w) by assumption.
     rewrite firstn_app, skipn_app, Nat.sub_diag, firstn_all, skipn_all. cbn [firstn skipn]. rewrite app_nil_r. reflexivity.
-  - unfold read_value, fmt_value. rewrite read_string_fmt by assumption. reflexivity.
+  - destruct H as [H Hv]. unfold read_value, fmt_value. rewrite read_string_fmt by assumption. reflexivity.
 Qed.
 
 Lemma enc_value_fmt vc t v : wf_value t v -> vc = false \/ value_no_cont v = true ->
@@ -113,7 +124,7 @@ Proof.
   - destruct (-128 <=? n) eqn:?, (n <=? 127) eqn:?; cbn; try reflexivity; lia.
   - unfold pack_u32. destruct (0 <=? n) eqn:?, (n <? 4294967296) eqn:?; cbn; try reflexivity; lia.
   - reflexivity.
-  - apply enc_string_fmt; assumption.
+  - apply enc_string_fmt; [apply H|assumption].
 Qed.
 
 Lemma fmt_value_pos t v : wf_value t v -> (1 <= length (fmt_value t v))%nat.
@@ -128,9 +139,9 @@ Qed.
 (** a successful [enc_value] of something other than [None] whose length equals that of a well-formed value of
     the same type is itself well-formed (and is the layout's encoding when lengths are counted in bytes) *)
 Lemma enc_value_wf vc t v b old : enc_value vc t v = Some b -> wf_value t old ->
-  length b = length (fmt_value t old) -> wf_value t v.
+  length b = length (fmt_value t old) -> value_utf8 v = true -> wf_value t v.
 Proof.
-  destruct t, v; cbn [enc_value]; try discriminate; intros E Ho Hl.
+  destruct t, v; cbn [enc_value]; try discriminate; intros E Ho Hl Hu.
   - cbn. revert E. destruct (-128 <=? n) eqn:?, (n <=? 127) eqn:?; cbn; try discriminate; intros _; clear Ho Hl; lia.
   - injection E as <-. pose proof (fmt_value_pos _ _ Ho). cbn [length] in Hl. lia.
   - cbn. revert E. unfold pack_u32. destruct (0 <=? n) eqn:?, (n <? 4294967296) eqn:?; cbn; try discriminate; intros _; clear Ho Hl; lia.
@@ -140,7 +151,7 @@ Proof.
   - unfold enc_string in E. destruct (pack_u32 _) as [p|] eqn:Ep; [|discriminate]. injection E as <-.
     unfold pack_u32 in Ep. destruct ((0 <=? _) && (_ <? 4294967296)); [|discriminate]. injection Ep as <-.
     destruct old; cbn in Ho; try contradiction. cbn [fmt_value] in Hl. rewrite length_fmt_string, app_length, length_le32 in Hl.
-    cbn. unfold blen in *. lia.
+    cbn. split; [unfold blen in *; lia|exact Hu].
   - injection E as <-. pose proof (fmt_value_pos _ _ Ho). cbn [length] in Hl. lia.
 Qed.
 
@@ -182,11 +193,11 @@ Proof.
   pose proof keywords_ok as KW. repeat (apply andb_true_iff in KW as [KW ?]).
   induction h as [|[k v] h IH]; intros fuel acc rest Hwf Hf.
   - destruct fuel as [|f]; [cbn in Hf; lia|]. cbn [fmt_entries flat_map app parse_loop fold_left].
-    rewrite read_string_fmt by lia. rewrite bytes_eqb_refl. reflexivity.
+    rewrite read_string_fmt by (lia || apply keywords_utf8). rewrite bytes_eqb_refl. reflexivity.
   - destruct fuel as [|f]; [cbn in Hf; lia|]. inversion Hwf as [|? ? [t [Ht Hv]] Hwf']; subst. cbn [fst snd] in *.
     destruct (table_key _ _ Ht) as (_ & Hlen & Hne).
     cbn [fmt_entries flat_map]. unfold fmt_entry at 1. cbn [fst snd]. rewrite (type_of_lookup _ _ Ht).
-    rewrite <- !app_assoc. cbn [parse_loop]. rewrite read_string_fmt by assumption.
+    rewrite <- !app_assoc. cbn [parse_loop]. rewrite read_string_fmt by (assumption || exact (table_key_utf8 _ _ Ht)).
     rewrite (bytes_eqb_neq _ _ Hne), Ht, read_value_fmt by assumption.
     fold (fmt_entries h). cbn [fold_left fst snd]. apply IH; [assumption|cbn in Hf; lia].
 Qed.
@@ -201,7 +212,7 @@ Theorem parse_fmt h rest : wf_header h -> has_layout h = true ->
   parse_header (fmt_header h ++ rest) = Some (h, blen (fmt_header h)).
 Proof.
   intros [Hnd Hwf] Hlay. pose proof keywords_ok as KW. repeat (apply andb_true_iff in KW as [KW ?]).
-  unfold parse_header, fmt_header. rewrite <- !app_assoc. rewrite read_string_fmt by lia. rewrite bytes_eqb_refl.
+  unfold parse_header, fmt_header. rewrite <- !app_assoc. rewrite read_string_fmt by (lia || apply keywords_utf8). rewrite bytes_eqb_refl.
   rewrite parse_loop_fmt; [|assumption|].
   - rewrite fold_dict_set by exact Hnd. cbn [app]. rewrite Hlay. f_equal. f_equal.
     unfold blen. rewrite !app_length. lia.
@@ -273,10 +284,17 @@ Proof.
   intros H. apply andb_true_iff in H as [-> H]. cbn. apply IH. assumption.
 Qed.
 
+Lemma no_cont_take_chars n s : no_cont s = true -> no_cont (take_chars n s) = true.
+Proof.
+  unfold no_cont. revert n. induction s as [|b s IH]; intros n; cbn; try reflexivity.
+  intros H. apply andb_true_iff in H as [Hb H]. destruct (is_cont b) eqn:Eb; [discriminate|]. destruct n; cbn; [reflexivity|].
+  rewrite Eb. cbn. apply IH. assumption.
+Qed.
+
 Lemma no_cont_pad old s : no_cont s = true -> no_cont (pad_name old s) = true.
 Proof.
-  intros H. unfold pad_name, no_cont. rewrite forallb_app. fold (no_cont (firstn (length old) s)).
-  rewrite no_cont_firstn by assumption. cbn. induction (length old - length s)%nat; cbn; auto.
+  intros H. unfold pad_name. unfold no_cont at 1. rewrite forallb_app. fold (no_cont (take_chars (nchars old) s)).
+  rewrite no_cont_take_chars by assumption. cbn. induction (nchars old - nchars s)%nat; cbn; auto.
 Qed.
 
 Lemma edit_value_no_cont h k v v' : edit_value h k v = Some v' -> value_no_cont v = true -> value_no_cont v' = true.
@@ -284,6 +302,63 @@ Proof.
   unfold edit_value. destruct (bytes_eqb k key_source_name); [|congruence].
   destruct v; try congruence. destruct (lookup key_source_name h) as [[| |old|]|]; try discriminate.
   intros [= <-] H. cbn in *. apply no_cont_pad. assumption.
+Qed.
+
+(** * well-formed UTF-8 is closed under concatenation and under the character slice of [edit_header] *)
+Lemma valid_utf8_app_len : forall k a b, (length a <= k)%nat -> valid_utf8 a = true -> valid_utf8 b = true -> valid_utf8 (a ++ b) = true.
+Proof.
+  induction k as [|k IH]; intros a b Hk Ha Hb.
+  - destruct a; [assumption|cbn in Hk; lia].
+  - destruct a as [|b0 r0]; [assumption|]. cbn [app]. cbn [valid_utf8] in *. cbn [length] in Hk.
+    destruct ((0 <=? b0) && (b0 <? 128)); [apply IH; [lia|assumption..]|].
+    destruct ((194 <=? b0) && (b0 <? 224)).
+    { destruct r0 as [|b1 r1]; [discriminate|]. cbn [app]. apply andb_true_iff in Ha as [-> Ha]. cbn. apply IH; [cbn in Hk; lia|assumption..]. }
+    destruct ((224 <=? b0) && (b0 <? 240)).
+    { destruct r0 as [|b1 [|b2 r2]]; try discriminate. cbn [app]. apply andb_true_iff in Ha as [Hc Ha]. rewrite Hc. cbn.
+      apply IH; [cbn in Hk; lia|assumption..]. }
+    destruct ((240 <=? b0) && (b0 <? 245)); [|discriminate].
+    destruct r0 as [|b1 [|b2 [|b3 r3]]]; try discriminate. cbn [app]. apply andb_true_iff in Ha as [Hc Ha]. rewrite Hc. cbn.
+    apply IH; [cbn in Hk; lia|assumption..].
+Qed.
+Lemma valid_utf8_app a b : valid_utf8 a = true -> valid_utf8 b = true -> valid_utf8 (a ++ b) = true.
+Proof. apply (valid_utf8_app_len (length a)). lia. Qed.
+
+Lemma valid_take_chars_len : forall k s n, (length s <= k)%nat -> valid_utf8 s = true -> valid_utf8 (take_chars n s) = true.
+Proof.
+  induction k as [|k IH]; intros s n Hk Hs.
+  - destruct s; [reflexivity|cbn in Hk; lia].
+  - destruct s as [|b0 r0]; [reflexivity|]. cbn [valid_utf8] in Hs. cbn [length] in Hk.
+    destruct ((0 <=? b0) && (b0 <? 128)) eqn:E0.
+    { assert (Hn : is_cont b0 = false) by (unfold is_cont; lia). cbn [take_chars]. rewrite Hn. destruct n; [reflexivity|].
+      cbn [valid_utf8]. rewrite E0. apply IH; [lia|assumption]. }
+    destruct ((194 <=? b0) && (b0 <? 224)) eqn:E1.
+    { assert (Hn : is_cont b0 = false) by (unfold is_cont; lia). cbn [take_chars]. rewrite Hn. destruct n; [reflexivity|].
+      destruct r0 as [|b1 r1]; [discriminate|]. apply andb_true_iff in Hs as [H1 Hs].
+      cbn [take_chars]. rewrite H1. cbn [valid_utf8]. rewrite E0, E1, H1. cbn. apply IH; [cbn in Hk; lia|assumption]. }
+    destruct ((224 <=? b0) && (b0 <? 240)) eqn:E2.
+    { assert (Hn : is_cont b0 = false) by (unfold is_cont; lia). cbn [take_chars]. rewrite Hn. destruct n; [reflexivity|].
+      destruct r0 as [|b1 [|b2 r2]]; try discriminate. apply andb_true_iff in Hs as [Hc Hs].
+      pose proof Hc as Hc'. apply andb_true_iff in Hc' as [Hc' _]. apply andb_true_iff in Hc' as [H1 H2].
+      cbn [take_chars]. rewrite H1, H2. cbn [valid_utf8]. rewrite E0, E1, E2, Hc. cbn. apply IH; [cbn in Hk; lia|assumption]. }
+    destruct ((240 <=? b0) && (b0 <? 245)) eqn:E3; [|discriminate].
+    assert (Hn : is_cont b0 = false) by (unfold is_cont; lia). cbn [take_chars]. rewrite Hn. destruct n; [reflexivity|].
+    destruct r0 as [|b1 [|b2 [|b3 r3]]]; try discriminate. apply andb_true_iff in Hs as [Hc Hs].
+    pose proof Hc as Hc'. apply andb_true_iff in Hc' as [Hc' _]. apply andb_true_iff in Hc' as [Hc' H3]. apply andb_true_iff in Hc' as [H1 H2].
+    cbn [take_chars]. rewrite H1, H2, H3. cbn [valid_utf8]. rewrite E0, E1, E2, E3, Hc. cbn. apply IH; [cbn in Hk; lia|assumption].
+Qed.
+Lemma valid_take_chars n s : valid_utf8 s = true -> valid_utf8 (take_chars n s) = true.
+Proof. apply (valid_take_chars_len (length s)). lia. Qed.
+Lemma valid_blanks n : valid_utf8 (repeat 32 n) = true.
+Proof. induction n; [reflexivity|]. cbn [repeat valid_utf8]. cbn. assumption. Qed.
+
+Lemma valid_pad_name old s : valid_utf8 s = true -> valid_utf8 (pad_name old s) = true.
+Proof. intros H. unfold pad_name. apply valid_utf8_app; [apply valid_take_chars; assumption|apply valid_blanks]. Qed.
+
+Lemma edit_value_utf8 h k v v' : edit_value h k v = Some v' -> value_utf8 v = true -> value_utf8 v' = true.
+Proof.
+  unfold edit_value. destruct (bytes_eqb k key_source_name); [|congruence].
+  destruct v; try congruence. destruct (lookup key_source_name h) as [[| |old|]|]; try discriminate.
+  intros [= <-] H. cbn in *. apply valid_pad_name. assumption.
 Qed.
 
 (** layout of the file around the value of entry [k] *)
@@ -320,7 +395,7 @@ Qed.
 
 (** a returning call rewrites exactly the value of key [k] *)
 Theorem edit_ok kc vc h data k v file' : wf_header h -> has_layout h = true ->
-  vc = false \/ (header_no_cont h = true /\ value_no_cont v = true) ->
+  vc = false \/ (header_no_cont h = true /\ value_no_cont v = true) -> value_utf8 v = true ->
   edit_header_with kc vc (fmt_header h ++ data) k v = Some file' ->
   exists h1 old h2 v' t,
     h = h1 ++ (k, old) :: h2 /\ lookup k header_keys = Some t /\ edit_value h k v = Some v' /\
@@ -328,7 +403,7 @@ Theorem edit_ok kc vc h data k v file' : wf_header h -> has_layout h = true ->
     length (fmt_value t v') = length (fmt_value t old) /\
     file' = fmt_header (h1 ++ (k, v') :: h2) ++ data.
 Proof.
-  intros Hw Hl Hc. pose proof keywords_ok as KW. repeat (apply andb_true_iff in KW as [KW ?]).
+  intros Hw Hl Hc Hu. pose proof keywords_ok as KW. repeat (apply andb_true_iff in KW as [KW ?]).
   unfold edit_header_with. destruct (lookup k header_keys) as [t|] eqn:Ht; [|discriminate].
   rewrite parse_fmt by assumption. destruct (edit_value h k v) as [v'|] eqn:Ev; [|discriminate].
   destruct (encode_header_with kc vc _) as [nb|] eqn:En; [|discriminate].
@@ -355,7 +430,7 @@ Proof.
     (* length accounting *)
     rewrite Eh, length_fmt_header_split, (type_of_lookup _ _ Ht) in El. rewrite !app_length in El.
     assert (Lb : length b = length (fmt_value t old)) by lia.
-    assert (Wv : wf_value t v') by (eapply enc_value_wf; eassumption).
+    assert (Wv : wf_value t v') by (eapply enc_value_wf; try eassumption; eapply edit_value_utf8; eassumption).
     rewrite (enc_value_fmt vc t v' Wv Hcv) in Eb. apply Some_inj in Eb. subst b.
     exists h1, old, h2, v', t. repeat split; try assumption.
     + (* NoDup *) rewrite Eh in Hnd. rewrite map_app in *. exact Hnd.
